@@ -540,6 +540,33 @@ Definition run_macro (hint : list nat) (c : cstate) : cstate :=
   let c1 := fold_left (fun c i => run_silent 16 c i) (seq 0 (length (c_threads c))) c in
   fold_left macro_step hint c1.
 
+(* A teardown that is refused (environment DONE, or not STANDBY / DEPLOYED and not forced) returns
+   before it writes any event: such a locked section leaves no mark in the observed log, so the
+   hint does not list it.  It changes nothing, but the thread's next unlocked actions (the lookup
+   of the forced retry) depend on when it ran: either as soon as the mutex was free, or last. *)
+Definition next_invisible (c : cstate) (i : nat) : bool :=
+  match nth_error (c_threads c) i with
+  | Some th =>
+    match th_phase th, th_prog th with
+    | TIdle, Do (ATeardown f) _ =>
+      negb (c_lock c) &&
+      match sec_trace (teardown_section (th_or th) (w_st (c_w c)) f) with [] => true | _ => false end
+    | _, _ => false
+    end
+  | None => false
+  end.
+
+Definition drain_invisible (c : cstate) : cstate :=
+  let pass c := fold_left (fun c i => if next_invisible c i then macro_step c i else c)
+                          (seq 0 (length (c_threads c))) c in
+  pass (pass c).
+
+Definition run_macro_early (hint : list nat) (c : cstate) : cstate :=
+  let c1 := fold_left (fun c i => run_silent 16 c i) (seq 0 (length (c_threads c))) c in
+  fold_left (fun c i => drain_invisible (macro_step c i)) hint c1.
+
+Definition run_macro_late (hint : list nat) (c : cstate) : cstate := drain_invisible (run_macro hint c).
+
 Fixpoint log_states (l : list litem) : list estate :=
   match l with
   | [] => []
@@ -549,7 +576,11 @@ Fixpoint log_states (l : list litem) : list estate :=
 Fixpoint log_reported (l : list litem) : list estate :=
   match l with
   | [] => []
-  | LE _ _ rep :: r => rep :: log_reported r
+  | LE k _ rep :: r =>
+    (* kind 3 = the harness' record of the state a reply carried; in a concurrent episode it is
+       written when the caller's goroutine runs again, possibly after later transitions: it is
+       compared per thread by the correspondence, not as part of the reported path *)
+    if k =? 3 then log_reported r else rep :: log_reported r
   | _ :: r => log_reported r
   end.
 
@@ -575,9 +606,21 @@ Fixpoint subseq_states (a b : list estate) : bool :=
    sampled at those instants: the sampled sequence must be a subsequence of the model's state
    sequence (a forced state overwritten before the next sample is not visible), the final state
    and every result must be equal. *)
+(* TeardownEnvironment reads the state several times (its checks, then "leave_" + CurrentState()):
+   a forced state that lands between them changes the name of the leave trigger it runs, while the
+   model's section reads the state once.  In runs in which the model itself records a forced state
+   inside a section (c_hazard) the state named by a leave hook is therefore not compared. *)
+Definition titem_eqb_loose (a b : titem) : bool :=
+  match a, b with
+  | Hook (MLeave _), Hook (MLeave _) => true
+  | _, _ => titem_eqb a b
+  end.
+
 Definition accepts (st0 : estate) (ths : list (req * N * option estate)) (items : list titem)
            (sampled : list estate) (final : estate) (listed : bool) (c : cstate) : bool :=
-  trace_eqb (visible (rev (c_trace c))) items && estate_eqb (w_st (c_w c)) final &&
+  (trace_eqb (visible (rev (c_trace c))) items ||
+   (c_hazard c && list_eqb titem_eqb_loose (visible (rev (c_trace c))) items)) &&
+  estate_eqb (w_st (c_w c)) final &&
   subseq_states (dedup_states st0 sampled) (trace_states (rev (c_trace c))) &&
   Bool.eqb (w_listed (c_w c)) listed && negb (c_lock c) &&
   all2 (fun th t => thread_result_ok th (snd (fst t)) (snd t)) (c_threads c) ths.
@@ -613,6 +656,47 @@ Fixpoint search (fuel : nat) (items : list titem) (accept : cstate -> bool) (c :
        end) (seq 0 (length (c_threads c))) budget
   end.
 
+(* Guided search: the locked sections begin in the order of the hint; between the phases of the
+   sections every pending unlocked action (lookup, read, forced state) of every thread is either run
+   now or postponed to the next such point, with at most [k] postponements in the whole run
+   (k = 0 is the eager schedule).  Refused teardowns (no mark in the log) run as soon as possible,
+   or not before the end. *)
+Fixpoint settle (fuel : nat) (ts : list nat) (k : nat) (c : cstate) (cont : nat -> cstate -> bool)
+         {struct fuel} : bool :=
+  match fuel with
+  | O => false
+  | S f =>
+    match ts with
+    | [] => cont k c
+    | t :: r =>
+      if next_silent c t then
+        settle f ts k (cstep env_events api_bodyful c t) cont ||
+        match k with S k' => settle f r k' c cont | O => false end
+      else settle f r k c cont
+    end
+  end.
+
+Definition all_threads (c : cstate) : list nat := seq 0 (length (c_threads c)).
+
+Definition finish_all (c : cstate) : cstate :=
+  let quiet c := fold_left (fun c i => run_silent 16 c i) (all_threads c) c in
+  quiet (drain_invisible (quiet (drain_invisible (quiet c)))).
+
+Fixpoint guided (hint : list nat) (k : nat) (c : cstate) (acc : cstate -> bool) {struct hint} : bool :=
+  match hint with
+  | [] => settle 200 (all_threads c) k c (fun _ c1 => acc (finish_all c1))
+  | i :: r =>
+    let go c0 :=
+      settle 200 (all_threads c0) k c0 (fun k1 c1 =>
+        let c1 := run_silent 16 c1 i in
+        if enabled c1 i && negb (next_silent c1 i) then
+          settle 200 (all_threads c1) k1 (cstep env_events api_bodyful c1 i) (fun k2 c2 =>
+            settle 200 (all_threads c2) k2 (cstep env_events api_bodyful c2 i) (fun k3 c3 =>
+              guided r k3 (cstep env_events api_bodyful c3 i) acc))
+        else false) in
+    if existsb (next_invisible c) (all_threads c) then go (drain_invisible c) || go c else go c
+  end.
+
 Definition corr_conc st0 o ths (macro micro : list N) (log : list litem) final listed : bool :=
   let items := visible (log_items log) in
   let sampled := log_states log in
@@ -620,7 +704,10 @@ Definition corr_conc st0 o ths (macro micro : list N) (log : list litem) final l
   let acc := accepts st0 ths items sampled final listed in
   (match micro with
    | _ :: _ => acc (run_sched env_events api_bodyful (map N.to_nat micro) c0)
-   | [] => acc (run_macro (map N.to_nat macro) c0)
+   | [] => acc (run_macro (map N.to_nat macro) c0) || acc (run_macro_early (map N.to_nat macro) c0) ||
+           acc (run_macro_late (map N.to_nat macro) c0) ||
+           guided (map N.to_nat macro) 1 c0 acc || guided (map N.to_nat macro) 2 c0 acc ||
+           guided (map N.to_nat macro) 3 c0 acc
    end) ||
   fst (search 120 items acc c0 30000).
 
